@@ -66,10 +66,10 @@ Section ExtProofs.
     apply (Hn i j); auto.
   Qed.
 
-  (** ExternalSort::merge_all on sorted runs and an arbitrary memory buffer *)
+  (** ExternalSort::merge_all_pre on sorted runs and an arbitrary memory buffer *)
   Theorem merge_all_spec : forall runs mem, Forall P (concat runs ++ mem) -> Forall sorted runs ->
-    sorted (merge_all cmp runs mem) /\ Permutation (merge_all cmp runs mem) (concat runs ++ mem)
-    /\ (no_cross_ties cmp (runs ++ [mem]) -> merge_all cmp runs mem = isort (concat runs ++ mem)).
+    sorted (merge_all_pre cmp runs mem) /\ Permutation (merge_all_pre cmp runs mem) (concat runs ++ mem)
+    /\ (no_cross_ties cmp (runs ++ [mem]) -> merge_all_pre cmp runs mem = isort (concat runs ++ mem)).
   Proof.
     intros runs mem HP Hs. apply Forall_app in HP. destruct HP as [HPr HPm].
     assert (Gen : sorted (kmerge cmp (runs ++ [isort mem]))
@@ -87,7 +87,7 @@ Section ExtProofs.
         + rewrite concat_snoc. apply isort_app_isort; auto.
         + apply (no_cross_ties_perm_last runs mem); auto.
           intros x Hx. eapply Permutation_in; [apply isort_perm|exact Hx]. }
-    destruct runs as [|r [|r2 rs]]; destruct mem as [|m ms]; cbn [merge_all]; try exact Gen.
+    destruct runs as [|r [|r2 rs]]; destruct mem as [|m ms]; cbn [merge_all_pre]; try exact Gen.
     - cbn [concat app]. split; [apply (isort_sorted cmp P leb_total leb_trans); auto|].
       split; [apply isort_perm|reflexivity].
     - inversion Hs; subst. cbn [concat]. rewrite !app_nil_r. split; [assumption|]. split; [reflexivity|].
@@ -96,7 +96,7 @@ Section ExtProofs.
 
   (** every way of cutting the input into runs (every memory budget) *)
   Theorem external_sort_pieces : forall pieces mem, Forall P (concat pieces ++ mem) ->
-    let out := merge_all cmp (map isort pieces) mem in
+    let out := merge_all_pre cmp (map isort pieces) mem in
     sorted out /\ Permutation out (concat pieces ++ mem)
     /\ (no_cross_ties cmp (map isort pieces ++ [mem]) -> out = isort (concat pieces ++ mem)).
   Proof.
@@ -151,17 +151,17 @@ Section ExtProofs.
   Qed.
 
   Theorem spill_sort_spec : forall threshold cs, Forall P (concat cs) ->
-    let out := spill_sort cmp threshold cs in
+    let out := spill_sort_pre cmp threshold cs in
     sorted out /\ Permutation out (concat cs)
     /\ (no_cross_ties cmp (spill_runs cmp threshold cs) -> out = isort (concat cs)).
   Proof.
-    intros threshold cs HP. cbn zeta. unfold spill_sort, spill_runs, sfinish.
+    intros threshold cs HP. cbn zeta. unfold spill_sort_pre, spill_runs, sfinish_pre.
     destruct (fold_spush threshold cs sst0 [] eq_refl (fun _ => eq_refl)) as [pieces [E1 [E2 E3]]].
     cbn [sst0 ss_buf concat app] in E3.
     set (s := fold_left (spush cmp threshold) cs sst0) in *.
     assert (HP' : Forall P (concat pieces ++ ss_buf s)) by (rewrite E3; exact HP).
-    assert (Out : (if ss_ext s then merge_all cmp (ss_runs s) (ss_buf s) else isort (ss_buf s))
-                  = merge_all cmp (map isort pieces) (ss_buf s)).
+    assert (Out : (if ss_ext s then merge_all_pre cmp (ss_runs s) (ss_buf s) else isort (ss_buf s))
+                  = merge_all_pre cmp (map isort pieces) (ss_buf s)).
     { rewrite E1. destruct (ss_ext s); [reflexivity|]. rewrite (E2 eq_refl). cbn.
       destruct (ss_buf s); reflexivity. }
     rewrite Out. destruct (external_sort_pieces pieces (ss_buf s) HP') as [M1 [M2 M3]].
@@ -257,7 +257,7 @@ Proof.
   - intro Hi. apply in_app_or in Hi. apply in_or_app. destruct Hi; [left; apply H|right]; auto.
   - destruct (f_part s); cbn; [apply H|]. intro Hi. apply remove_id_subset in Hi. apply H. exact Hi.
   - intro Hi. rewrite delete_all_active. apply delete_all_disk in Hi. apply H. tauto.
-  - apply H.
+  - intro Hi. rewrite delete_all_active. apply delete_all_disk in Hi. apply H. tauto.
   - intro Hi. apply filter_In in Hi. destruct Hi as [Hi Hn]. apply H in Hi.
     assert (existsb (Nat.eqb i) (g_active (f_mgr s)) = true) by (apply existsb_exists; exists i; split; auto; apply Nat.eqb_refl).
     rewrite H0 in Hn. discriminate.
@@ -278,7 +278,47 @@ Proof.
   rewrite H0 in I2. discriminate.
 Qed.
 
-Theorem spill_files_refuted_l : exists ops,
-  k_part_cleanup_leaves fstate0 ops = true /\ f_sort (frun ops) = [] /\ f_part (frun ops) = []
-  /\ disk_count (frun ops) = 1%nat.
+(** PartitionedState::cleanup / drop removes the files of its spilled partitions (5457c98) *)
+Theorem spill_files_partition_l : forall s i, In i (f_part s) -> ~ In i (g_disk (f_mgr (fstep s FPartCleanup))).
+Proof. intros s i Hi H. cbn in H. apply delete_all_disk in H. tauto. Qed.
+
+(** every file on disk belongs to the external sort or to the partitioned state: once both are
+    cleaned up or dropped nothing is left, without waiting for the manager *)
+Definition disk_owned (s : fstate) : Prop := forall i, In i (g_disk (f_mgr s)) -> In i (f_sort s) \/ In i (f_part s).
+
+Lemma fstep_owned : forall s o, disk_owned s -> disk_owned (fstep s o).
+Proof.
+  intros s o H i. destruct o; cbn.
+  - rewrite !in_app_iff. cbn [In]. intros [Hi|[Hi|[]]]; [destruct (H i Hi); auto|auto].
+  - intro Hi. apply delete_all_disk in Hi. destruct Hi as [Hi Hn]. destruct (H i Hi); tauto.
+  - rewrite !in_app_iff. cbn [In]. intros [Hi|[Hi|[]]]; [destruct (H i Hi); auto|auto].
+  - destruct (f_part s) as [|j r] eqn:E; cbn.
+    + intro Hi. destruct (H i Hi) as [F|F]; [auto|rewrite E in F; destruct F].
+    + intro Hi. pose proof (remove_id_not_in j (g_disk (f_mgr s))) as N.
+      assert (Hij : i <> j) by (intro; subst; tauto). apply remove_id_subset in Hi.
+      destruct (H i Hi) as [F|F]; [auto|]. rewrite E in F. destruct F as [F|F]; [congruence|auto].
+  - intro Hi. apply delete_all_disk in Hi. destruct Hi as [Hi Hn]. destruct (H i Hi); tauto.
+  - intro Hi. apply delete_all_disk in Hi. destruct Hi as [Hi Hn]. destruct (H i Hi); tauto.
+  - intro Hi. apply filter_In in Hi. destruct Hi as [Hi _]. apply H. exact Hi.
+Qed.
+
+Theorem spill_files_all_removed_l : forall ops,
+  g_disk (f_mgr (frun (ops ++ [FPartCleanup; FSortDrop]))) = [].
+Proof.
+  intros ops. unfold frun. rewrite fold_left_app.
+  set (s := fold_left fstep ops fstate0).
+  assert (H : disk_owned s).
+  { unfold s. clear. assert (G : forall l s0, disk_owned s0 -> disk_owned (fold_left fstep l s0)).
+    { induction l as [|o r IH]; intros s0 H0; cbn; auto. apply IH. apply fstep_owned. exact H0. }
+    apply G. intros i []. }
+  cbn [fold_left].
+  pose proof (fstep_owned _ FSortDrop (fstep_owned s FPartCleanup H)) as H2.
+  destruct (g_disk (f_mgr (fstep (fstep s FPartCleanup) FSortDrop))) as [|x l] eqn:E; [reflexivity|].
+  exfalso. destruct (H2 x) as [F|F]; [rewrite E; left; reflexivity| |]; cbn in F; exact F.
+Qed.
+
+(** before 5457c98 (C17-K6) *)
+Theorem spill_files_pre_refuted_l : exists ops,
+  k_part_cleanup_leaves fstate0 ops = true /\ f_sort (frun_pre ops) = [] /\ f_part (frun_pre ops) = []
+  /\ disk_count (frun_pre ops) = 1%nat.
 Proof. exists [FPartSpill; FPartCleanup]. vm_compute. auto. Qed.
